@@ -20,6 +20,7 @@ fn main() {
         "worker" => h::worker::main(mode, rest),
         "sched" => h::sched::main(mode, rest),
         "sysw" => h::sysw::main(mode, rest),
+        "env" => h::env::main(mode, rest),
         _ => {
             eprintln!("unknown component {comp}");
             std::process::exit(2);
